@@ -3,7 +3,7 @@
 import json, os, subprocess
 ROOT = os.path.dirname(os.path.dirname(os.path.abspath(__file__)))
 
-COMMON = 'Trusted: TLC, the recording wrapper (hook H1) and driver, the prober (materialises every I/O prefix and starts the real NewSamehadaDB on it). Crash points are I/O-call boundaries plus torn variants of one log write; single driver goroutine. Trace validation against CrashModel (no separate design-level WAL model yet).'
+COMMON = 'Trusted: TLC, the recording wrapper (hook H1) and driver, the prober (materialises every I/O prefix and starts the real NewSamehadaDB on it). Crash points are I/O-call boundaries plus torn variants of one log write; single driver goroutine. The WalRecovery mechanism spec (WAL + redo/undo + restart order, crashes inside recovery, torn log tail) is model-checked by TLC for the same contract; it covers one heap page.'
 
 CLAIMED = {
  "C16": dict(
@@ -83,7 +83,7 @@ CLAIMED = {
     category="model_checking",
     text="CrashModel is the oracle (Acceptable = committed table + any subset of the committing transactions). Seeded workloads of multi-statement transactions (small and 300-900-byte rows so that heaps grow, in-place / growing / shrinking / relocating updates, deletes, explicit aborts, conflict aborts between interleaved transactions, forced checkpoints) run on file-backed databases at pools of 16/24/32/128 frames under the recording disk wrapper; for EVERY prefix of the I/O list after the DDL the crash image is materialised, the real NewSamehadaDB restarted on it, the table read back and a new statement tried, plus torn variants of the next log write; TLC validates the annotated trace: restart succeeded, every returned commit is reflected, new statements are accepted.",
     design_ref="DESIGN.md section 5 C01", note=COMMON,
-    technique="TLA+ contract spec as oracle; exhaustive crash-point enumeration per recorded workload (restart of the real engine on every I/O prefix) judged by TLC trace validation"),
+    technique="TLA+ mechanism spec (WalRecovery) model-checked; TLA+ contract spec (CrashModel) as oracle for exhaustive crash-point enumeration per recorded workload (restart of the real engine on every I/O prefix), judged by TLC trace validation"),
  "C02": dict(
     category="model_checking",
     text="Same pipeline as C01; TLC checks on every crash image (and torn variant) that no recovered row was written by a transaction that was neither committed nor committing at that point (active, aborted, aborting), and that a committing transaction is entirely present or entirely absent. Workloads interleave two transactions on the same pages and slots, abort explicitly and by conflict, reuse slots after aborts, and push uncommitted changes to disk through small pools and checkpoints.",
